@@ -326,6 +326,10 @@ def c03(run):
     # block markers (split_block / join_block / replace_block at valid and invalid positions) and calls on texts that
     # contain block markers
     interp_trace(run, ["C03"], "spans", sizes(run, 150, 3000), has_failed_call, spec="Trace_Seq.tla")
+    # the AutoCommit front end: every plain transaction is run a second time through an AutoCommit copy of the replica
+    # (same actor): same result of every call, same view after every call, same committed change hash; maps / lists
+    # and text under the three encodings, 30% invalid calls
+    interp_trace(run, ["C03"], "autofront", sizes(run, 120, 2500), has_failed_call, spec="Trace_Seq.tla")
 
 
 def has_readat_pair(sc):
